@@ -214,8 +214,15 @@ def handler(st, opts):
         elif track == "xl": got = tt.grad.grad(val, X, [len(xl) - 1])
         elif track == "xr": got = tt.grad.grad(val, X, [len(xl) - 1, 0])
         elif track == "y": got = tt.grad.grad(val, Y)
-        elif track == "wx": got = tt.grad.grad_list(val, [W, X])
-        else: got = tt.grad.grad_list(val, [X, Y])
+        elif track in ("wx", "xy"):
+            tens = [W, X] if track == "wx" else [X, Y]
+            if (len(str(body)) + len(head)) % 2 == 0:
+                got = tt.grad.grad_list(val, tens)
+            else:                       # the documented nested form: one list per tensor
+                nested = tt.grad.grad_list(val, tens, all_in_one=False)
+                if not isinstance(nested, list) or len(nested) != 2 or [len(v) for v in nested] != [len(t.cores) for t in tens]:
+                    return {"problems": [P("shape", "grad_list(all_in_one=False) did not return one list of core gradients per tensor")], "stats": stats}
+                got = list(nested[0]) + list(nested[1])
     except Exception as ex:  # noqa
         return {"problems": [P("exception", "raised %s: %s" % (type(ex).__name__, str(ex)[:200]))], "stats": stats}
     # dense reference on copies of the same leaves
